@@ -4,7 +4,7 @@ import numpy as np
 
 from vf import gen, ops as O
 from vf.cmp import vals, circ_diff
-from vf.compare import compare, compare_cancel, CANCEL, align_to
+from vf.compare import signed_scale, compare, compare_cancel, CANCEL, align_to
 from vf.checks.c05 import ties
 
 
@@ -76,7 +76,8 @@ def pairs(ctx, rng, xr, ops):
             try:
                 vk = vals(op.fn(xk, aux))
                 fac = {"sqrt": np.sqrt(k), "lin": k, "none": 1.0}[op.scale]
-                ok, why = scaled_equal(name, v0, vk, fac, f32 or op.peak, op.circ)
+                sgn = signed_scale(op, x)
+                ok, why = scaled_equal(name, v0, vk, fac, f32 or op.peak, op.circ, abs_scale=None if sgn is None else vals(sgn))
                 if ok is None:
                     rec.skip(name, why)
                 elif ok:
@@ -187,7 +188,7 @@ def rotation_conditioned(x, f, th):
     return True
 
 
-def scaled_equal(name, v0, v1, fac, f32, circ):
+def scaled_equal(name, v0, v1, fac, f32, circ, abs_scale=None):
     v0 = np.asarray(v0, dtype="float64")
     v1 = np.asarray(v1, dtype="float64")
     if v0.shape != v1.shape:
@@ -212,7 +213,11 @@ def scaled_equal(name, v0, v1, fac, f32, circ):
     if circ:
         return bool(np.all(circ_diff(v1[m], v0[m]) <= (0.05 if f32 else 1e-6))), None
     rt = 3e-5 if f32 else 1e-9
-    return bool(np.all(np.abs(v1[m] - fac * v0[m]) <= rt * np.abs(fac * v0[m]) + 1e-300)), None
+    at = 1e-300
+    if abs_scale is not None:
+        # signed directional sum: rounding scales with the unsigned total, not with the (cancelling) result
+        at = at + 32.0 * rt * np.abs(fac * np.broadcast_to(np.asarray(abs_scale, dtype="float64"), v0.shape)[m])
+    return bool(np.all(np.abs(v1[m] - fac * v0[m]) <= rt * np.abs(fac * v0[m]) + at)), None
 
 
 def scale_by_hs(ctx, rng, xr):
